@@ -90,7 +90,7 @@ func c20Run(c c20Case, st *fw.Stats) []fw.Viol {
 	switch c.Kind {
 	case "auth":
 		accounts := c20Accounts[c.Accounts]
-		for _, placement := range []string{"route", "global", "group", "global+405", "global+404", "route-dynamic-cached", "route-dynamic-cached-repeat", "nested-group-siblings", "group-use-siblings", "nested-group-siblings-single-mw", "group-use-siblings-single-mw", "global-two-gates", "group-use-two-gates", "banner-then-gate", "late-global-gate", "forwarded-to-gated-route", "notfound-chain-gate-single-mw"} {
+		for _, placement := range []string{"route", "global", "group", "global+405", "global+404", "route-dynamic-cached", "route-dynamic-cached-repeat", "nested-group-siblings", "group-use-siblings", "nested-group-siblings-single-mw", "group-use-siblings-single-mw", "global-two-gates", "group-use-two-gates", "banner-then-gate", "late-global-gate", "forwarded-to-gated-route", "notfound-chain-gate-single-mw", "resource-update-put", "resource-update-patch"} {
 			for _, hdr := range c20Auth {
 				st.Evals++
 				st.Nontrivial++
@@ -145,6 +145,15 @@ func c20Run(c c20Case, st *fw.Stats) []fw.Viol {
 						r.GET("/t", main, sibling)
 						r.GET("/u", main, sibling)
 					})
+				case "resource-update-put", "resource-update-patch":
+					// the gate is the per-action middleware (Uses) of a resource controller's Update action, which has two methods
+					ctl := &ChainRes{h: map[string]rux.HandlerFunc{}, uses: map[string][]rux.HandlerFunc{}}
+					for _, a := range []string{"Index", "Create", "Store", "Show", "Edit", "Update", "Delete"} {
+						ctl.h[a] = pass
+					}
+					ctl.h["Update"] = main
+					ctl.uses["Update"] = []rux.HandlerFunc{auth, after}
+					r.Resource("/", ctl)
 				case "notfound-chain-gate-single-mw":
 					// the gate is the first handler of a custom NotFound chain on a router WITHOUT global middleware; the router
 					// has served an unmatched and then a matched request before
@@ -219,6 +228,12 @@ func c20Run(c c20Case, st *fw.Stats) []fw.Viol {
 				}
 				if placement == "notfound-chain-gate-single-mw" {
 					req = httptest.NewRequest("GET", "/no/such/page", nil)
+				}
+				if placement == "resource-update-put" {
+					req = httptest.NewRequest("PUT", "/chainres/7", nil)
+				}
+				if placement == "resource-update-patch" {
+					req = httptest.NewRequest("PATCH", "/chainres/7", nil)
 				}
 				if placement == "global+405" {
 					req = httptest.NewRequest("DELETE", "/s", nil)
@@ -330,6 +345,8 @@ func c20Run(c c20Case, st *fw.Stats) []fw.Viol {
 					behind = " (downstream = a rux router, the handler behind handlers.Timeout(1h) and a wrapped net/http handler)"
 					rr := rux.New()
 					see := func(ctx *rux.Context) {
+						// (a value of its own added to the request context must not hide what is already there)
+						ctx.WithReqCtxValue("verif-own-key", "1")
 						seenMethod = ctx.Req.Method
 						seenOrig = ctx.ReqCtxValue(handlers.OriginalMethodContextKey)
 						// a copy of the context (kept for a background job, say) still tells how the request came in
@@ -518,7 +535,7 @@ func c20Run(c c20Case, st *fw.Stats) []fw.Viol {
 var c20Spec = fw.Spec[c20Case]{
 	ID:    "C20",
 	Level: "model_checking",
-	Rule: "complete decision tables: HTTPBasicAuth: 6 account maps (nil, empty, one user, empty password, two users, password containing ':') x 27 Authorization values (incl. the full square of known / unknown / empty users x matching / other / empty passwords) (absent, valid, wrong password, unknown user, empty user / password, no colon, bare scheme, bad base64, scheme in other case, other scheme, double space, padding, leading space, case-changed user, empty) x 17 placements (first handler of a custom NotFound chain on a router without global middleware that served unmatched and matched requests before; two stacked gates with different account lists are among them; a global gate installed after the route served its first request; the gated route reached through another route's middleware that re-dispatches with HandleContext; behind a middleware that has already written body bytes; two gates registered from one call site with Router.Use, globally and inside a group; route, global, group middleware; global gate in front of the not-allowed and of the not-found handlers; a dynamic route on a caching router, first request and repeat after a valid one filled the cache; route-level gate of the first of several sibling routes inside nested groups / inside a group with three Use calls, with two and with exactly one route-level middleware per sibling); " +
+	Rule: "complete decision tables: HTTPBasicAuth: 6 account maps (nil, empty, one user, empty password, two users, password containing ':') x 27 Authorization values (incl. the full square of known / unknown / empty users x matching / other / empty passwords) (absent, valid, wrong password, unknown user, empty user / password, no colon, bare scheme, bad base64, scheme in other case, other scheme, double space, padding, leading space, case-changed user, empty) x 19 placements (per-action middleware of a resource's two-method Update action, asked with PUT and with PATCH; first handler of a custom NotFound chain on a router without global middleware that served unmatched and matched requests before; two stacked gates with different account lists are among them; a global gate installed after the route served its first request; the gated route reached through another route's middleware that re-dispatches with HandleContext; behind a middleware that has already written body bytes; two gates registered from one call site with Router.Use, globally and inside a group; route, global, group middleware; global gate in front of the not-allowed and of the not-found handlers; a dynamic route on a caching router, first request and repeat after a valid one filled the cache; route-level gate of the first of several sibling routes inside nested groups / inside a group with three Use calls, with two and with exactly one route-level middleware per sibling); " +
 		"HTTPMethodOverrideHandler: 10 request methods x 13 override values x 6 carriers (none, header, query, body, header+query agreeing, header+body disagreeing - the last for totality only) x {a plain net/http handler downstream, a rux router whose handler sits behind handlers.Timeout and a wrapped net/http handler}; WrapHTTPHandlers: lists of 1..4 distinguishable wrappers (+ the override gate in the list); WrapHTTPHandler / WrapHTTPHandlerFunc and their four aliases at every subset of positions of chains n<=4; every row is non-trivial",
 	Assume: []string{"'well-formed Basic credentials' = scheme Basic (any case), one space, valid base64, a colon in the decoded text", "when both override carriers disagree the statement does not say which wins; those rows are executed but not asserted"},
 	Bounds: func(tier string) map[string]any {
